@@ -230,6 +230,7 @@ def judge(ctx, evpath, what, env, nparts=None):
         for m in re.finditer(r'"(REJ|PKREJ) <<([^>]*)>>"', r.out):
             parts = [x.strip() for x in m.group(2).split(",")]
             rej.append((m.group(1), int(parts[0]), [x == "TRUE" for x in parts[1:]] if m.group(1) == "REJ" else parts[1:]))
+        OBS["packets_not_parsed"] = OBS.get("packets_not_parsed", 0) + len(re.findall(r'"PKSKIP ', r.out))
         if re.search(r'"BAD ', r.out):
             raise vf.Infra("%s: the harness refused a plan line (event k=bad) in %s" % (what, p))
     vf.log("[trace] %-36s lines=%d chunks=%d rejected=%d" % (what, total, len(chunks), len(rej)))
@@ -314,16 +315,59 @@ def run(ctx):
     if ctx.replay:
         return replay(ctx, exe, env)
     rng = random.Random(ctx.seed)
-    # requests
+    # 1. design theorems
+    tags_mc = set()
+    leaves = []
+    for sysn, what, w in (("I", "side information: parameters x policies", 8), ("P", "whole frames: excitation policies", 8),
+                          ("E", "encoder mirror: records, excitations, block scaling", 8), ("L", "lag index over a packet vs SilkParams' domain", 2)):
+        r = ctx.mc("SilkIdx_mc", "SilkIdx_mc_%s_%s.cfg" % (sysn, tier), what=what, env=env, deadlock=True, workers=w if q else 12,
+                   timeout=1500 if q else 3000, heap="6g")
+        failed = sorted(set(re.findall(r'"FAILED ([A-Za-z0-9_]+)"', r.out)))
+        for m in re.finditer(r'"TABLEDIFF (\{[^}]*\})"', r.out):
+            ctx.spec_drift("SilkIdx", "tables of the built library differ from the RFC 6716 values of SilkIdxTables: " + m.group(1).replace('\\"', ""))
+        if r.violation:
+            if "WholeTablesOK" in failed:
+                ctx.violation("C17 ('every static inverse-CDF table is strictly decreasing and ends at zero'): a table of the speech-frame layer, as exported from "
+                              "the built library, is not a proper inverse CDF over the alphabet the format gives it (SilkIdx!WholeTablesOK)",
+                              replay_text="MC " + sysn)
+                return
+            if failed == ["SxConstOK"]:
+                ctx.spec_drift("SilkIdx", "constants of the built library differ from the model's (SilkIdx!SxConstOK)")
+            else:
+                raise vf.Infra("SilkIdx design theorem violated (%s, failed %s):\n%s" % (r.violation, failed, r.state_dump[:2500]))
+        if r.distinct < 50:
+            raise vf.Infra("SilkIdx_mc %s explored only %d states (vacuous)" % (sysn, r.distinct))
+        for m in re.finditer(r'"TAGS \{([^}]*)\}"', r.out):
+            tags_mc.update(re.findall(r'\\"([a-z0-9_]+)\\"', m.group(1)))
+        leaves += leaves_from_tlc(r)
+    r = ctx.mc("SilkIdx_mc", "SilkIdx_mc_witness.cfg", what="witness: the mirror depends on the shifted table after 10 escapes", env=env, deadlock=True, workers=2, timeout=600, heap="3g")
+    if r.violation != "WitnessChainMax":
+        raise vf.Infra("witness configuration not refuted (%s): the excitation theorems are vacuous" % r.violation)
+    miss = [t for t in NEED if t not in tags_mc]
+    if miss:
+        raise vf.Infra("branches of the model never reached by the exhaustive runs (vacuous): %s" % miss)
+    OBS["mc_leaves"] = len(leaves)
+    if len(leaves) < 500:
+        raise vf.Infra("SilkIdx_mc printed too few leaves (%d)" % len(leaves))
+    ctx.exhaustive = True
+    ctx.notes["exhaustive_scope"] = "model side: the parameter grids x policy sets of the SilkIdx_mc_*_%s cfgs; implementation side sampled" % tier
+    # 2. requests: directed ones, a seeded sample of the leaves, seeded random ones
     reqs, rid = directed_requests(rng, 0)
-    nrand = 700 if q else 12000
+    leaves.sort()
+    rng.shuffle(leaves)
+    for h, v in leaves[:(150 if q else 3000)]:
+        rid += 1
+        reqs.append(dict(k="F", id=rid, fs=h[0], nb=h[1], fi=h[2], lb=h[3], cc=h[4], vad=h[5], ps=h[6], pl=h[7], vals=v))
+    nrand = 500 if q else 12000
     for i in range(nrand):
         rid += 1
         reqs.append(frame_request(rng, rid))
-    ctx.notes["requests"] = dict(frames=len(reqs))
+    oreqs = pk_requests(rng, rid, 16 if q else 160, 16 if q else 40)
+    ctx.notes["requests"] = dict(frames=len(reqs), encoder_runs=len(oreqs))
     plans, tables = plan(ctx, reqs, "all", env)
     outs = execute(ctx, exe, reqs, plans, tables, "fr", 8 if q else 12)
-    by_id = {x["id"]: x for x in reqs}
+    outs += execute(ctx, exe, oreqs, plans, tables, "pk", 4 if q else 12)
+    by_id = {x["id"]: x for x in reqs + oreqs}
     tags_seen = set()
     allev = ctx.path("events_all.ndjson")
     with open(allev, "w") as fo:
@@ -340,21 +384,48 @@ def run(ctx):
                 ctx.sample(dict(event=vf.file_line(op, min(n, 2))[:500]), limit=4)
             with open(op) as fi:
                 fo.write(fi.read())
+    # shuffle the lines so that the chunks cost about the same
+    lines = open(allev).read().splitlines()
+    random.Random(ctx.seed).shuffle(lines)
+    with open(allev, "w") as fo:
+        fo.write("\n".join(lines) + "\n")
     rej = judge(ctx, allev, "G06 events", env)
     report(ctx, exe, env, rej, by_id)
     miss = [t for t in NEED if t not in tags_seen]
     if miss and not ctx.violations:
         raise vf.Infra("branches of the model never executed on the implementation side (vacuous run): %s" % miss)
+    if OBS["packets"] - OBS.get("packets_not_parsed", 0) < (100 if q else 2000) and not ctx.violations:
+        raise vf.Infra("too few whole-codec packets parsed by the model: %d of %d" % (OBS["packets"] - OBS.get("packets_not_parsed", 0), OBS["packets"]))
+    if OBS["twins"] * 3 < OBS["frames"] and not ctx.violations:
+        raise vf.Infra("too few frames went through the real encoder (twin runs): %d of %d" % (OBS["twins"], OBS["frames"]))
     ctx.notes["branches_seen"] = sorted(tags_seen)
     ctx.notes["observed"] = OBS
 
 
 def report(ctx, exe, env, rej, by_id):
     ndrift = 0
+    ctx.notes["rejected_events"] = len(rej)
     for kind, rid, verdict in rej[:12]:
         q = by_id.get(rid)
-        if kind != "REJ" or q is None:
+        if q is None:
             raise vf.Infra("rejected event without request: %s %s" % (kind, rid))
+        if kind == "PKREJ":
+            f, lock, model = int(verdict[0]), verdict[1] == "TRUE", verdict[2] == "TRUE"
+            again = [x for x in rerun(ctx, exe, env, [q], "rerun%d" % rid) if x[0] == "PKREJ" and x[2] == verdict]
+            if not again:
+                raise vf.Infra("packet rejection did not repeat (R4): run %d packet %d" % (rid, f))
+            detail = "run %s, packet %d" % (json.dumps(q), f)
+            if not lock:
+                rp = ctx.path("replay_%d.ndjson" % (len(ctx.violations) + 1))
+                with open(rp, "w") as fo:
+                    fo.write(json.dumps(q, separators=(",", ":")) + "\n")
+                ctx.violation("C02: a speech-mode packet of the real encoder is not decoded in lock-step by the real decoder (final range / duration) :: " + detail, replay_src=rp)
+            else:
+                ndrift += 1
+                if ndrift <= 3:
+                    ctx.spec_drift("SilkIdx", "the model, parsing the bytes of a speech-mode packet of the real encoder in its own symbol order, does not end at the final "
+                                   "range encoder and decoder report (they agree with each other) :: " + detail)
+            continue
         level, text = classify(verdict)
         again = rerun(ctx, exe, env, [q], "rerun%d" % rid)
         if not again or again[0][2] != verdict:
@@ -371,12 +442,11 @@ def report(ctx, exe, env, rej, by_id):
             ndrift += 1
             if ndrift <= 3:
                 ctx.spec_drift("SilkIdx", detail)
-    ctx.notes["rejected_events"] = len(rej)
 
 
 def rerun(ctx, exe, env, qs, tag):
     qs = [dict(x) for x in qs]
-    plans, tables = plan(ctx, qs, tag, env, nparts=1)
+    plans, tables = plan(ctx, [x for x in qs if x["k"] == "F"] or [dict(k="F", id=0, fs=8, nb=2, fi=0, lb=0, cc=0, vad=0, ps=0, pl=0, vals=[0])], tag, env, nparts=1)
     outs = execute(ctx, exe, qs, plans, tables, tag, 1)
     rej = []
     for ip, op, rc, err in outs:
@@ -403,12 +473,20 @@ def replay(ctx, exe, env):
         else:
             ctx.evaluations += vf.count_lines(op); ctx.traces += 1
         return
+    if txt.startswith("MC "):
+        r = ctx.mc("SilkIdx_mc", "SilkIdx_mc_I_quick.cfg", what="replay: tables", env=env, deadlock=True, workers=8, timeout=1500, heap="6g")
+        if r.violation:
+            ctx.violation("model invariant still violated with the tables of the built library: %s" % sorted(set(re.findall(r'"FAILED ([A-Za-z0-9_]+)"', r.out))), replay_text=txt)
+        return
     qs = [json.loads(l) for l in txt.splitlines() if l.strip().startswith("{")]
     if not qs:
         raise vf.Infra("replay file holds no request")
     ctx.sample(dict(replayed=json.dumps(qs[0])[:400]))
     for kind, rid, verdict in rerun(ctx, exe, env, qs, "replay"):
-        level, text = classify(verdict) if kind == "REJ" else ("violation", "abort")
+        if kind == "PKREJ":
+            level, text = ("violation", "C02: packet not decoded in lock-step") if verdict[1] != "TRUE" else ("drift", "model does not parse the packet to its final range")
+        else:
+            level, text = classify(verdict) if kind == "REJ" else ("violation", "abort")
         if level == "violation":
             ctx.violation("replayed case rejected again: %s :: %s" % (text, verdict), replay_text=txt)
         elif level == "drift":
